@@ -822,6 +822,9 @@ def _merge(a, b, pick_a):
     return SReal(z3.If(pick_a, rterm(a), rterm(b)))
 
 
+MERGE_MINMAX = [True]      # False: max/min fork on the comparison instead of building If-terms
+
+
 def sym_max(*args, **kw):
     if len(args) == 1:
         args = tuple(args[0])
@@ -830,6 +833,9 @@ def sym_max(*args, **kw):
     r = args[0]
     for a in args[1:]:
         c = (a > r)
+        if not MERGE_MINMAX[0]:
+            r = a if bool(c) else r
+            continue
         r = _merge(a, r, c.t if isinstance(c, SBool) else z3.BoolVal(bool(c)))
     return r
 
@@ -842,6 +848,9 @@ def sym_min(*args, **kw):
     r = args[0]
     for a in args[1:]:
         c = (a < r)
+        if not MERGE_MINMAX[0]:
+            r = a if bool(c) else r
+            continue
         r = _merge(a, r, c.t if isinstance(c, SBool) else z3.BoolVal(bool(c)))
     return r
 
